@@ -13,7 +13,7 @@ EXPLANATION = ('The cross-width transcoders (UTF-8 decode to 16/32 bit, UTF-8 en
 ASSUMPTIONS = ['the first sequence of the input is representative: the loops are interpreted for their first iteration from an arbitrary start state',
                'raw-pointer instantiations stand for all iterator types (iterator adapters are checked by C11 R11.1)']
 TRUSTED = ['clang 14 AST + constant evaluation', 'bsfacts', 'bsv/dtab.py + bsv/interval.py', 'spec/unicode_spec.py']
-UNITS = ['w_convert.cpp', 'csv_readers.cpp', 'csv_writers.cpp']
+UNITS = ['w_convert.cpp', 'csv_readers.cpp', 'csv_writers.cpp', 'w_archives.cpp']
 
 
 def run(prog, rep):
@@ -29,6 +29,10 @@ def run(prog, rep):
     rep.rule('R12.6', 'the configured error policy and error mark reach the transcoder: a function that holds a policy / mark (its own parameter '
                       'or a data member of its class) never calls a transcoder leaving the corresponding parameter to its default argument', floor=30)
     check_policy_forwarding(prog, rep, 'R12.6')
+    rep.rule('R12.7', 'functions that report a transcoding failure by throwing (string values of the archives, Convert::To between string types), '
+                      'executed over the three result codes of the transcoder: every code other than Success ends in the exception - a truncated '
+                      'last sequence (UnexpectedEnd) is not mistaken for success', floor=6)
+    check_failure_reported(prog, rep, 'R12.7')
 
 
 def check_policy_forwarding(prog, rep, rule):
@@ -84,3 +88,82 @@ def check_policy_forwarding(prog, rep, rule):
                     rep.ok(rule, site + '|' + f.sym.get('targs', '')[:40] + '|' + f.loc(c))
     if n_sites == 0:
         raise AnalysisBroken('%s: no forwarding call site found' % rule)
+
+
+def check_failure_reported(prog, rep, rule):
+    from bsv.dtab import TOP, Interp, Model, Struct, Sym
+    NS = 'BitSerializer::Convert::Utf::'
+    codes = (prog.enums.get(NS + 'UtfEncodingErrorCode') or {}).get('items')
+    if not codes:
+        raise AnalysisBroken('anchor vanished: enum UtfEncodingErrorCode')
+
+    class M(Model):
+        def __init__(self, code):
+            self.code = code
+
+        def initial_store(self, it, key):
+            return TOP
+
+        def construct(self, it, fr, n, depth):
+            vals = [it.ev(fr, a, depth) for a in n.get('c', ())]
+            return vals[0] if len(vals) == 1 else TOP
+
+        def primitive(self, it, fr, n, callee, depth):
+            obj, args = it.call_args(fr, n)
+            q = callee.get('q', '')
+            if q.startswith(NS) and callee['n'] in ('Transcode', 'Encode', 'Decode'):
+                for a in args:
+                    it.ev(fr, a, depth)
+                it.act('TRANSCODE')
+                st = Struct()
+                st.fields.update({'ErrorCode': self.code, 'Iterator': Sym('IT'), 'InvalidSequencesCount': TOP})
+                return st
+            if callee['n'] == 'operator bool' and obj is not None:
+                v = it.ev(fr, obj, depth)
+                if isinstance(v, Struct) and isinstance(v.fields.get('ErrorCode'), int):
+                    return 1 if v.fields['ErrorCode'] == codes['Success'] else 0
+            for a in args:
+                it.ev(fr, a, depth)
+            if obj is not None:
+                it.ev(fr, obj, depth)
+            return TOP
+    n = 0
+    seen = set()
+    for f in sorted(prog.funcs.values(), key=lambda g: g.id):
+        if f.body is None or not f.sym.get('repo') or 'conversion_detail/convert_utf.h' in f.relfile or 'testing_tools' in f.relfile:
+            continue
+        calls = [c for c in f.walk() if c['k'] in ('CallExpr', 'CXXMemberCallExpr') and (f.callee(c) or {}).get('q', '').startswith(NS)
+                 and (f.callee(c) or {}).get('n') in ('Transcode', 'Encode', 'Decode')]
+        if not calls or not any(x['k'] == 'CXXThrowExpr' for x in f.walk()):
+            continue
+        # only functions that look at the result (a discarded result is a conversion of text known to be ASCII - digits, ISO dates)
+        from rules.json_render import discarded
+        if all(discarded(f, c) for c in calls):
+            continue
+        key = (f.relfile, f.name, f.loc())
+        n += 1
+        rep.touch(f)
+        bad = None
+        for cname in ('Success', 'UnexpectedEnd', 'InvalidSequence'):
+            it = Interp(prog, M(codes[cname]), max_depth=0, max_paths=200)
+
+            def init(it_, fr):
+                for p in f.params:
+                    fr.env[p['d']] = TOP
+            for p in it.run(f, init):
+                if not any(a[0] == 'TRANSCODE' for a in p.actions):
+                    continue
+                if cname == 'Success' and p.outcome[0] == 'THROW':
+                    bad = 'throws %s although the transcoder reported Success' % p.outcome[1]
+                if cname != 'Success' and p.outcome[0] != 'THROW':
+                    bad = 'returns normally when the transcoder reports %s: the %s is taken for a successful conversion' % (
+                        cname, 'truncated last sequence' if cname == 'UnexpectedEnd' else 'ill-formed sequence')
+        site = '%s@%s' % (f.pq if f.cls else f.name, f.loc())
+        if bad:
+            if key not in seen:
+                rep.finding(rule, '%s|%s' % (f.name, bad.split(':')[0][:60]), f.loc(), '%s: %s' % (f.name, bad), {'instantiation': f.id}, func=f.id)
+        else:
+            rep.ok(rule, site + '|' + f.sym.get('targs', '')[:40])
+        seen.add(key)
+    if n < 2:
+        raise AnalysisBroken('%s: fewer than two reporting callers of the transcoders found (%d)' % (rule, n))
